@@ -1378,3 +1378,267 @@ theorem Arena.fromSet_spec {s : Arena} (hs : s.OK) (l : List Nat) :
 
 
 end Varpulis.ZddT
+
+/-! ## Part E: standalone `Zdd` operations -/
+namespace Varpulis.Zdd
+theorem product_empty_left (b : Z) : product .empty b = .empty := by rw [product.eq_def]; simp
+theorem product_empty_right (a : Z) : product a .empty = .empty := by rw [product.eq_def]; simp
+theorem product_base_left (b : Z) : product .base b = b := by rw [product.eq_def]; split <;> simp_all
+theorem product_base_right (a : Z) : product a .base = a := by
+  rw [product.eq_def]; split
+  · rename_i h; simp at h; exact h.symm
+  · split <;> simp_all
+theorem product_lt {av bv : Nat} {alo ahi blo bhi : Z} (h : av < bv) :
+    product (.node av alo ahi) (.node bv blo bhi) =
+      mk av (product alo (.node bv blo bhi)) (product ahi (.node bv blo bhi)) := by
+  rw [product.eq_def]; simp [h]
+theorem product_gt {av bv : Nat} {alo ahi blo bhi : Z} (h : bv < av) :
+    product (.node av alo ahi) (.node bv blo bhi) =
+      mk bv (product (.node av alo ahi) blo) (product (.node av alo ahi) bhi) := by
+  rw [product.eq_def]; simp [h, Nat.lt_asymm h]
+theorem product_eq {v : Nat} {alo ahi blo bhi : Z} :
+    product (.node v alo ahi) (.node v blo bhi) =
+      mk v (product alo blo) (union (union (product ahi blo) (product alo bhi)) (product ahi bhi)) := by
+  rw [product.eq_def]; simp
+theorem product_comm (a b : Z) : product a b = product b a := by
+  fun_induction product a b
+  · rename_i h; rcases h with h | h <;> subst h <;> simp [product_empty_left, product_empty_right]
+  · rw [product_base_right]
+  · rw [product_base_left]
+  · rename_i av alo ahi bv blo bhi hlt _ _ _ ih1 ih2
+    rw [product_gt hlt, ih1, ih2]
+  · rename_i av alo ahi bv blo bhi _ hgt _ _ _ ih1 ih2
+    rw [product_lt hgt, ih1, ih2]
+  · rename_i av alo ahi bv blo bhi h1 h2 _ _ _ ih1 ih2 ih3 ih4
+    have : av = bv := by omega
+    subst this
+    rw [product_eq, ih1, ih2, ih3, ih4, union_comm (product blo ahi) (product bhi alo)]
+  · rename_i b _ a _ _ _
+    cases a <;> cases b <;> simp_all
+    rename_i h; exact absurd rfl (h _ _ _ _ _ _ rfl rfl rfl rfl rfl)
+end Varpulis.Zdd
+
+namespace Varpulis.ZddT
+open Varpulis.Zdd
+
+
+theorem carry {t t' : Table} (hw : TWF t) (hx : Ext t t') {r : Ref} {z : Z} (hv : Valid t r) (hz : treeOf t r = z) :
+    Valid t' r ∧ treeOf t' r = z := ⟨hx.valid hv, by rw [tree_stable hw.toBelow hx hv, hz]⟩
+
+theorem norm_cases_nodes {a b : Ref} {i j : Nat} (ha : a = .N i) (hb : b = .N j) :
+    norm a b = (a, b) ∨ norm a b = (b, a) := by
+  subst ha hb; simp only [norm, Ref.le]; by_cases h : i ≤ j <;> simp [h]
+
+theorem productT_spec : ∀ (fuel : Nat) (t : Table) (c : Cache2) (a b : Ref), TWF t → Cache2OK product t c →
+    Valid t a → Valid t b → a.rank + b.rank < fuel →
+    Post2 product t (product (treeOf t a) (treeOf t b)) (productT fuel t c a b) := by
+  intro fuel
+  induction fuel with
+  | zero => intro t c a b _ _ _ _ h; omega
+  | succ fuel ih =>
+    intro t c a b hw hc ha hb hf
+    rw [productT]
+    by_cases hae : a = .E
+    · subst hae; simp only [true_or, if_true, tree_E, product_empty_left]; exact Post2.ret hw hc (valid_E _) rfl
+    by_cases hbe : b = .E
+    · subst hbe; simp only [or_true, if_true, tree_E, product_empty_right]; exact Post2.ret hw hc (valid_E _) rfl
+    by_cases hab : a = .B
+    · subst hab; simp only [hbe, or_self, reduceCtorEq, if_false, if_true, tree_B, product_base_left]
+      exact Post2.ret hw hc hb rfl
+    by_cases hbb : b = .B
+    · subst hbb; simp only [hae, hab, or_self, reduceCtorEq, if_false, if_true, tree_B, product_base_right]
+      exact Post2.ret hw hc ha rfl
+    simp only [hae, hbe, hab, hbb, or_self, if_false]
+    have core : ∀ (i j : Nat), Valid t (.N i) → Valid t (.N j) → (i + 1) + (j + 1) < fuel + 1 →
+        Post2 product t (product (treeOf t (.N i)) (treeOf t (.N j)))
+          (match c.lookup (.N i, .N j) with
+          | some r => some (t, c, r)
+          | none => do
+            let (av, alo, ahi) ← nodeInfo t (.N i)
+            let (bv, blo, bhi) ← nodeInfo t (.N j)
+            let (t1, c1, r) ← (match av, bv with
+              | some av, some bv =>
+                if av < bv then do
+                  let (t, c, nlo) ← productT fuel t c alo (.N j)
+                  let (t, c, nhi) ← productT fuel t c ahi (.N j)
+                  let (t, r) := getOrCreate t av nlo nhi
+                  pure (t, c, r)
+                else if av > bv then do
+                  let (t, c, nlo) ← productT fuel t c (.N i) blo
+                  let (t, c, nhi) ← productT fuel t c (.N i) bhi
+                  let (t, r) := getOrCreate t bv nlo nhi
+                  pure (t, c, r)
+                else do
+                  let (t, c, lolo) ← productT fuel t c alo blo
+                  let (t, c, hilo) ← productT fuel t c ahi blo
+                  let (t, c, lohi) ← productT fuel t c alo bhi
+                  let (t, c, hihi) ← productT fuel t c ahi bhi
+                  let (t, _, u1) ← unionA t [] hilo lohi
+                  let (t, _, nhi) ← unionA t [] u1 hihi
+                  let (t, r) := getOrCreate t av lolo nhi
+                  pure (t, c, r)
+              | some _, none => pure (t, c, .N i)
+              | none, some _ => pure (t, c, .N j)
+              | none, none => none)
+            pure (t1, ((Ref.N i, Ref.N j), r) :: c1, r)) := by
+      intro i j ha' hb' hf'
+      cases hlk : c.lookup (.N i, .N j) with
+      | some r =>
+        obtain ⟨_, _, h3, h4⟩ := hc _ _ r (mem_of_lookup hlk)
+        exact Post2.ret hw hc h3 h4
+      | none =>
+        obtain ⟨x, hx⟩ := get_of_valid ha'
+        obtain ⟨y, hy⟩ := get_of_valid hb'
+        have hcx := hw.toBelow.child_valid hx
+        have hbx := hw.below hx
+        have hox := tree_ord_child hw hx
+        have hcy := hw.toBelow.child_valid hy
+        have hby := hw.below hy
+        have hoy := tree_ord_child hw hy
+        simp only [nodeInfo, hx, hy]
+        refine Post2.insert hw ?_ ha' hb' rfl
+        rw [tree_N hw.toBelow hx, tree_N hw.toBelow hy]
+        rcases Nat.lt_trichotomy x.v y.v with hlt | heq | hgt
+        · simp only [hlt, if_true]
+          rw [product_lt hlt, ← tree_N hw.toBelow hy]
+          have oy : Ord (x.v + 1) (treeOf t (.N j)) := tree_ord_ge hw hy (by omega)
+          refine Post2.mk2 (o2 := fun t c => productT fuel t c x.hi (.N j))
+            (ih t c x.lo (.N j) hw hc hcx.1 hb' (by simp only [rank_N]; omega)) (fun t1 c1 x1 w1 k1 => ?_)
+            (ord_product _ _ _ hox.1 oy) (ord_product _ _ _ hox.2 oy)
+          have := ih t1 c1 x.hi (.N j) w1 k1 (x1.valid hcx.2) (x1.valid hb') (by simp only [rank_N]; omega)
+          rwa [tree_stable hw.toBelow x1 hcx.2, tree_stable hw.toBelow x1 hb'] at this
+        · rw [heq]
+          simp only [Nat.lt_irrefl, if_false]
+          rw [product_eq]
+          have hox' : Ord (y.v + 1) (treeOf t x.lo) ∧ Ord (y.v + 1) (treeOf t x.hi) := heq ▸ hox
+          obtain ⟨t1, c1, lolo, e1, x1, w1, k1, v1, z1⟩ := ih t c x.lo y.lo hw hc hcx.1 hcy.1 (by omega)
+          obtain ⟨t2, c2, hilo, e2, x2, w2, k2, v2, z2⟩ :=
+            ih t1 c1 x.hi y.lo w1 k1 (x1.valid hcx.2) (x1.valid hcy.1) (by omega)
+          rw [tree_stable hw.toBelow x1 hcx.2, tree_stable hw.toBelow x1 hcy.1] at z2
+          have x12 := x1.trans x2
+          obtain ⟨t3, c3, lohi, e3, x3, w3, k3, v3, z3⟩ :=
+            ih t2 c2 x.lo y.hi w2 k2 (x12.valid hcx.1) (x12.valid hcy.2) (by omega)
+          rw [tree_stable hw.toBelow x12 hcx.1, tree_stable hw.toBelow x12 hcy.2] at z3
+          have x13 := x12.trans x3
+          obtain ⟨t4, c4, hihi, e4, x4, w4, k4, v4, z4⟩ :=
+            ih t3 c3 x.hi y.hi w3 k3 (x13.valid hcx.2) (x13.valid hcy.2) (by omega)
+          rw [tree_stable hw.toBelow x13 hcx.2, tree_stable hw.toBelow x13 hcy.2] at z4
+          have x14 := x13.trans x4
+          -- carry the earlier results into t4
+          obtain ⟨v1', z1'⟩ := carry w1 (x2.trans (x3.trans x4)) v1 z1
+          obtain ⟨v2', z2'⟩ := carry w2 (x3.trans x4) v2 z2
+          obtain ⟨v3', z3'⟩ := carry w3 x4 v3 z3
+          obtain ⟨t5, c5, u1, e5, x5, w5, _, v5, z5⟩ := unionA_spec w4 (Cache2OK.nil _ _) v2' v3'
+          rw [z2', z3'] at z5
+          obtain ⟨v4', z4'⟩ := carry w4 x5 v4 z4
+          obtain ⟨t6, c6, nhi, e6, x6, w6, _, v6, z6⟩ := unionA_spec w5 (Cache2OK.nil _ _) v5 v4'
+          rw [z5, z4'] at z6
+          obtain ⟨v1'', z1''⟩ := carry w4 (x5.trans x6) v1' z1'
+          obtain ⟨x7, w7, v7, z7⟩ := mk_step w6 (v := y.v) v1'' v6
+            (by rw [z1'']; exact ord_product _ _ _ hox'.1 hoy.1)
+            (by rw [z6]; exact ord_union _ _ _ (ord_union _ _ _ (ord_product _ _ _ hox'.2 hoy.1)
+                  (ord_product _ _ _ hox'.1 hoy.2)) (ord_product _ _ _ hox'.2 hoy.2))
+          rw [z1'', z6] at z7
+          generalize hgc : getOrCreate t6 y.v lolo nhi = g at *
+          obtain ⟨t7, r⟩ := g
+          exact ⟨t7, c4, r, by simp [e1, e2, e3, e4, e5, e6, hgc], x14.trans (x5.trans (x6.trans x7)), w7,
+            k4.mono w4.toBelow (x5.trans (x6.trans x7)), v7, z7⟩
+        · simp only [if_neg (Nat.lt_asymm hgt), hgt, if_true]
+          rw [product_gt hgt, ← tree_N hw.toBelow hx]
+          have ox : Ord (y.v + 1) (treeOf t (.N i)) := tree_ord_ge hw hx (by omega)
+          refine Post2.mk2 (o2 := fun t c => productT fuel t c (.N i) y.hi)
+            (ih t c (.N i) y.lo hw hc ha' hcy.1 (by simp only [rank_N]; omega)) (fun t1 c1 x1 w1 k1 => ?_)
+            (ord_product _ _ _ ox hoy.1) (ord_product _ _ _ ox hoy.2)
+          have := ih t1 c1 (.N i) y.hi w1 k1 (x1.valid ha') (x1.valid hcy.2) (by simp only [rank_N]; omega)
+          rwa [tree_stable hw.toBelow x1 ha', tree_stable hw.toBelow x1 hcy.2] at this
+    cases a with
+    | E => exact absurd rfl hae
+    | B => exact absurd rfl hab
+    | N i =>
+      cases b with
+      | E => exact absurd rfl hbe
+      | B => exact absurd rfl hbb
+      | N j =>
+        simp only [rank_N] at hf
+        rcases norm_cases_nodes (a := .N i) (b := .N j) rfl rfl with hn | hn
+        · rw [hn]; exact core i j ha hb hf
+        · rw [hn, product_comm]; exact core j i hb ha (by omega)
+
+
+/-- invariant of a standalone `Zdd`: own table well-formed, root dereferenceable -/
+structure ZddS.OK (z : ZddS) : Prop where
+  twf : TWF z.table
+  valid : Valid z.table z.root
+
+/-- the tree a standalone `Zdd` denotes -/
+def ZddS.den (z : ZddS) : Z := treeOf z.table z.root
+
+theorem ZddS.ok_empty : ZddS.empty.OK ∧ ZddS.empty.den = .empty := ⟨⟨twf_empty, valid_E _⟩, rfl⟩
+theorem ZddS.ok_base : ZddS.base.OK ∧ ZddS.base.den = .base := ⟨⟨twf_empty, valid_B _⟩, rfl⟩
+
+theorem ZddS.singleton_spec (var : Nat) : (ZddS.singleton var).OK ∧ (ZddS.singleton var).den = Zdd.singleton var := by
+  obtain ⟨_, w, v, z⟩ := mk_step twf_empty (v := var) (valid_E _) (valid_B _) (ord_empty _) (ord_base _)
+  exact ⟨⟨w, v⟩, by simpa [Zdd.singleton, ZddS.singleton, ZddS.den] using z⟩
+
+theorem ZddS.fromSet_spec (l : List Nat) : (ZddS.fromSet l).OK ∧ (ZddS.fromSet l).den = Zdd.fromSet l := by
+  obtain ⟨_, w, v, z⟩ := fromSortedT_spec (normalize l) #[] twf_empty (normalize_spec l).1
+  exact ⟨⟨w, v⟩, z⟩
+
+/-- `remap_nodes(other)` into a clone of `self`'s table preserves the trees of both -/
+theorem ZddS.remapInto_spec {self other : ZddS} (hs : self.OK) (ho : other.OK) :
+    ∃ t r, self.remapInto other = some (t, r) ∧ Ext self.table t ∧ TWF t ∧ Valid t r ∧ treeOf t r = other.den := by
+  obtain ⟨t, m, r, e, x, w, _, v, z⟩ :=
+    remapT_spec ho.twf other.root.rank self.table [] other.root hs.twf (rmapOK_nil _ _) ho.valid (Nat.le_refl _)
+  exact ⟨t, r, by simp [ZddS.remapInto, e], x, w, v, z⟩
+
+theorem ZddS.union_spec {self other : ZddS} (hs : self.OK) (ho : other.OK) :
+    ∃ z, self.union other = some z ∧ z.OK ∧ z.den = Zdd.union self.den other.den := by
+  obtain ⟨t, r, e, x, w, v, z⟩ := ZddS.remapInto_spec hs ho
+  obtain ⟨v0, z0⟩ := carry hs.twf x hs.valid rfl
+  obtain ⟨t', c', r', e', _, w', _, v', z'⟩ := unionA_spec w (Cache2OK.nil _ _) v0 v
+  rw [z0, z] at z'
+  exact ⟨⟨r', t'⟩, by simp [ZddS.union, e, e'], ⟨w', v'⟩, z'⟩
+
+theorem ZddS.inter_spec {self other : ZddS} (hs : self.OK) (ho : other.OK) :
+    ∃ z, self.inter other = some z ∧ z.OK ∧ z.den = Zdd.inter self.den other.den := by
+  obtain ⟨t, r, e, x, w, v, z⟩ := ZddS.remapInto_spec hs ho
+  obtain ⟨v0, z0⟩ := carry hs.twf x hs.valid rfl
+  obtain ⟨t', c', r', e', _, w', _, v', z'⟩ := interA_spec w (Cache2OK.nil _ _) v0 v
+  rw [z0, z] at z'
+  exact ⟨⟨r', t'⟩, by simp [ZddS.inter, e, e'], ⟨w', v'⟩, z'⟩
+
+theorem ZddS.diff_spec {self other : ZddS} (hs : self.OK) (ho : other.OK) :
+    ∃ z, self.diff other = some z ∧ z.OK ∧ z.den = Zdd.diff self.den other.den := by
+  obtain ⟨t, r, e, x, w, v, z⟩ := ZddS.remapInto_spec hs ho
+  obtain ⟨v0, z0⟩ := carry hs.twf x hs.valid rfl
+  obtain ⟨t', c', r', e', _, w', _, v', z'⟩ := diffA_spec w (Cache2OK.nil _ _) v0 v
+  rw [z0, z] at z'
+  exact ⟨⟨r', t'⟩, by simp [ZddS.diff, e, e'], ⟨w', v'⟩, z'⟩
+
+theorem ZddS.product_spec {self other : ZddS} (hs : self.OK) (ho : other.OK) :
+    ∃ z, self.product other = some z ∧ z.OK ∧ z.den = Zdd.product self.den other.den := by
+  obtain ⟨t, r, e, x, w, v, z⟩ := ZddS.remapInto_spec hs ho
+  obtain ⟨v0, z0⟩ := carry hs.twf x hs.valid rfl
+  obtain ⟨t', c', r', e', _, w', _, v', z'⟩ :=
+    productT_spec _ t [] self.root r w (Cache2OK.nil _ _) v0 v (Nat.lt_succ_self _)
+  rw [z0, z] at z'
+  exact ⟨⟨r', t'⟩, by simp [ZddS.product, e, e'], ⟨w', v'⟩, z'⟩
+
+theorem ZddS.pwo_spec {self : ZddS} (hs : self.OK) (var : Nat) :
+    ∃ z, self.pwo var = some z ∧ z.OK ∧ z.den = Zdd.pwo self.den var := by
+  obtain ⟨t', uc', pc', r, e, _, w, _, _, v, z⟩ :=
+    pwoT_spec false var (self.root.rank + 1) self.table [] [] self.root hs.twf (Cache2OK.nil _ _)
+      (Cache1OK.nil _ _) hs.valid (Nat.le_succ _)
+  exact ⟨⟨r, t'⟩, by simp [ZddS.pwo, e], ⟨w, v⟩, z⟩
+
+theorem ZddS.count_spec {self : ZddS} (hs : self.OK) : self.count = some (Zdd.count self.den) := by
+  obtain ⟨cc', k, e, _, z⟩ := countT_spec (self.root.rank + 1) self.table [] self.root hs.twf (CacheNOK.nil _)
+    hs.valid (Nat.le_succ _)
+  simp [ZddS.count, e, z, ZddS.den]
+
+theorem ZddS.contains_spec {self : ZddS} (hs : self.OK) (q : List Nat) :
+    self.contains q = some (Zdd.contains self.den (normalize q)) :=
+  containsT_spec _ _ _ _ hs.twf hs.valid (Nat.le_succ _)
+
+
+end Varpulis.ZddT
